@@ -683,15 +683,27 @@ def gen_c20(rnd, tier):
         tasks = {}
         for i in range(nt):
             items = []
-            nsub = nls = 0
+            nsub = nls = npub = 0
             for rd in range(rounds):
                 items.append({"op": "barrier", "n": rd})
                 for _k in range(rnd.randint(1, 3)):
                     k = rnd.choice(KEYS)
                     op = rnd.choice(["get", "get", "cget", "pget", "set", "set", "cset", "cset", "publish", "delete", "pdelete", "ls", "pls",
                                      "lock", "release", "sub", "psub", "subls", "sub_async", "psub_async", "subls_async",
-                                     "unsub", "unsub_async", "unsubls", "unsubls_async"])
+                                     "unsub", "unsub_async", "unsubls", "unsubls_async",
+                                     "spubinit", "spub", "spub", "set_name"])
                     it = {"op": op}
+                    if op == "spubinit":
+                        npub += 1
+                        it.update(key=k)
+                    elif op == "spub":
+                        if not npub:
+                            continue
+                        it.update(ref=rnd.randint(0, 2), val=rnd.choice(VALS))
+                        if rnd.random() < 0.3:
+                            it["ff"] = True
+                    elif op == "set_name":
+                        it.update(val=rnd.choice(["v1", "v2", "v3"]))
                     if op in ("get", "cget", "delete", "lock", "release"):
                         it.update(key=k)
                     elif op in ("set", "publish"):
@@ -735,8 +747,11 @@ def gen_c20(rnd, tier):
                         if not nls:
                             continue
                         it.update(ref=rnd.randint(0, 3))
-                    if op in ("get", "cget", "set") and rnd.random() < 0.5:
+                    if op in ("get", "cget", "set", "pget", "delete", "pdelete", "sub", "psub", "publish", "cset", "spub") and rnd.random() < 0.5:
                         it["typed"] = True
+                    # fire-and-forget variant of a write (`*_async`): nothing is awaited, the effect must still be there
+                    if op in ("set", "cset", "publish", "delete", "pdelete", "lock", "release") and rnd.random() < 0.25:
+                        it["ff"] = True
                     items.append(it)
             items.append({"op": "barrier", "n": rounds})
             tasks["t%d" % (i + 1)] = items
